@@ -317,15 +317,10 @@ impl<T: Trace + ?Sized> Gc<T> {
     }
 }
 
-impl<T: Trace + ?Sized> Finalize for Gc<T> {
-    fn finalize(&self) {
-        // SAFETY: inner_ptr should be alive when calling finalize.
-        // We don't call inner_ptr() to avoid overhead of calling finalizer_safe().
-        unsafe {
-            self.inner_ptr.as_ref().dec_ref_count();
-        }
-    }
-}
+// A handle has nothing to finalize: the finalization of a box must not release the handles the
+// box holds, since the box (and its handles) may survive the collection if a finalizer resurrects
+// it. Handles are released on `Drop`, or by the collector when it sweeps the box that holds them.
+impl<T: Trace + ?Sized> Finalize for Gc<T> {}
 
 // SAFETY: `Gc` maintains it's own rootedness and implements all methods of
 // Trace. It is not possible to root an already rooted `Gc` and vice versa.
@@ -366,8 +361,12 @@ impl<T: Trace + ?Sized> Deref for Gc<T> {
 
 impl<T: Trace + ?Sized> Drop for Gc<T> {
     fn drop(&mut self) {
+        // While sweeping, the collector has already released the handles inside of the dropped boxes.
         if finalizer_safe() {
-            Finalize::finalize(self);
+            // SAFETY: outside of a sweep, `inner_ptr` is alive as long as this handle exists.
+            unsafe {
+                self.inner_ptr.as_ref().dec_ref_count();
+            }
         }
     }
 }
